@@ -61,6 +61,9 @@ fn watchers_step(n_take: usize, n_flush: usize, push_take: bool, push_flush: boo
         i += 1;
     }
     assert!(unsafe { shim::PANIC_CALLS } as usize == nt, "one guarded invocation per take watcher");
+    if twin == 2 {
+        assert!(ran(2) == 1, "TWIN (false): notify_on_take also reports the flush");
+    }
     assert!(ran(2) == 0 && ran(3) == 0 && ran(5) == 0, "flush callbacks are not run by notify_on_take");
     assert!(w.counts() == (0, nf), "take watchers drained, flush watchers kept");
 
@@ -126,6 +129,12 @@ pub fn c07c08_t_k_watchers_mixed() {
 #[kani::unwind(8)]
 pub fn c08_w_k_watchers_panic_stops_rest() {
     watchers_step(1, 1, true, true, 1);
+}
+
+#[kani::proof]
+#[kani::unwind(8)]
+pub fn c07_w_k_watchers_take_reports_flush() {
+    watchers_step(1, 1, false, false, 2);
 }
 
 // ---- Batch::new -----------------------------------------------------------------------------------------
@@ -276,14 +285,15 @@ pub fn c08_q_k_delay_configured() {
 // C06 (buffer re-allocation step): the hint for the replacement buffer is computed without panicking for any
 // history and is at least the length of the batch just taken (+1 unless saturated).
 
-#[kani::proof]
-#[kani::unwind(34)]
-pub fn c06_q_k_capacity() {
+fn capacity_step(twin: u8) {
     let vals: [usize; v::CAPACITY_WINDOW] = kani::any();
     let idx: usize = kani::any();
     let mut c = v::VCapacity::from_parts(vals, idx);
     let last: usize = kani::any();
     let hint = c.next(last);
+    if twin == 1 {
+        assert!(last == usize::MAX || hint == last + 1, "TWIN (false): the hint only depends on the last batch");
+    }
     assert!(hint >= last, "hint covers the last batch");
     assert!(hint > last || last == usize::MAX, "with head-room unless saturated");
     let (after, idx2) = c.parts();
@@ -294,6 +304,18 @@ pub fn c06_q_k_capacity() {
     kani::cover!(idx == usize::MAX, "index wraps");
     kani::cover!(last == usize::MAX, "saturating");
     kani::cover!(last < 1000 && hint > last + 1, "an older, larger batch dominates");
+}
+
+#[kani::proof]
+#[kani::unwind(34)]
+pub fn c06_q_k_capacity() {
+    capacity_step(0);
+}
+
+#[kani::proof]
+#[kani::unwind(34)]
+pub fn c06_w_k_capacity_last_only() {
+    capacity_step(1);
 }
 
 // ---- CatchUnwind ----------------------------------------------------------------------------------------
